@@ -26,10 +26,12 @@ def r1(ctx):
     ctx.check('from_str|ok-sites', len(oks) == 1, 'Ok sites: %d' % len(oks), sample=len(oks))
     for s, v in oks:
         ctx.guard(b, s, 'has-slash', fact_is(r'^Result::branch\(Option::ok_or\(str::split_once\(s, 47\)', 'Continue'), key='from_str|Ok|split')
-        ctx.guard(b, s, 'addr-parses', fact_is(r'^Result::branch\(str::parse\(addr\)\)$', 'Continue', names=True), key='from_str|Ok|addr')
-        ctx.guard(b, s, 'mask-parses', fact_is(r'^Result::branch\(Result::map_err\(str::parse\(mask\)', 'Continue', names=True), key='from_str|Ok|mask')
-        ctx.guard(b, s, 'mask-in-range', fact_cmp('Le', r'^mask', r'^max_mask\{128 \| 32\}$', names=True), key='from_str|Ok|mask<=max')
-    li = one([i for i, l in enumerate(b.locals) if l.get('name') == 'max_mask'], 'max_mask')
+        SPLIT = r'\(Result::branch\(Option::ok_or\(str::split_once\(s, 47\), [^()]*\{\}\)\) as Continue\)\.0'
+        ctx.guard(b, s, 'addr-parses', fact_is(r'^Result::branch\(str::parse\(%s\.0\)\)$' % SPLIT, 'Continue'), key='from_str|Ok|addr')
+        ctx.guard(b, s, 'mask-parses', fact_is(r'^Result::branch\(Result::map_err\(str::parse\(%s\.1\), ' % SPLIT, 'Continue'), key='from_str|Ok|mask')
+        ctx.guard(b, s, 'mask-in-range', fact_cmp('Le', r'num::checked_sub\(.*, 96\)', r'^\w*\{128 \| 32\}$'), key='from_str|Ok|mask<=max')
+    # the per-family mask limit: the user local whose two definitions are the constants 32 and 128 (found by its values, not its name)
+    li = one([i for i, l in enumerate(b.locals) if l.get('user') and l.get('name') and sorted(S(b._def_term(d, ())) for d in (b.defs().get(i) or [])) == ['128', '32']], 'the per-family mask limit')
     tab = {}
     for d in b.defs()[li]:
         v = S(b._def_term(d, ()))
@@ -39,11 +41,12 @@ def r1(ctx):
     ctx.check('from_str|max-mask-table', tab == {'V4': '32', 'V6': '128'}, 'mask limits %s' % tab, sample=tab)
     cs = one(b.calls(r'::checked_sub$'), 'checked_sub(96)')
     ctx.check('from_str|mapped-mask', S(b.call_args(cs)[1]) == '96', 'mapped mask offset %s' % S(b.call_args(cs)[1]), cs.where(), sample=S(b.call_args(cs)[1]))
-    ctx.guard(b, cs, 'v6-input', fact_is(r'^addr', ['V6'], names=True), key='from_str|mapped|v6-input')
+    ctx.guard(b, cs, 'v6-input', fact_is(r'^\(Result::branch\(str::parse\(', ['V6']), key='from_str|mapped|v6-input')
     ctx.guard(b, cs, 'v4-canonical', fact_is(r'IpAddr::to_canonical\(', ['V4']), key='from_str|mapped|canonical-v4')
     ty = [S(b.call_args(c)[0]) for c in b.calls(r'str::parse$')]
-    mt = [l['ty'] for l in b.locals if l.get('name') == 'mask']
-    ctx.check('from_str|mask-type', 'u8' in mt, 'mask parsed as %s' % mt, sample=mt)
+    # the prefix length is parsed as u8: the type of the checked_sub receiver
+    mt = [b.callee(cs).get('self_ty') or b.callee(cs)['def']]
+    ctx.check('from_str|mask-type', any('u8' in str(t) for t in mt), 'mask parsed as %s' % mt, sample=[str(t)[:40] for t in mt])
 
 
 def r2(ctx):
@@ -68,18 +71,30 @@ def r2(ctx):
     a = [S(x) for x in i6.call_args(l6)]
     ctx.check('is_in6|tree', a == ['self.ipv6_filter', 'num::from_be_bytes(Ipv6Addr::octets(addr))'], 'is_in6 looks up %s' % a, l6.where(), sample=a)
     n = P.body(F + '::new')
-    for p in n.calls(r'Vec::push$'):
-        lst = N(n.call_args(p)[0])
+    # the two prefix lists are told apart by the storage they live in (local index), not by their names:
+    # the list that receives the V4-placed values must be the one the ipv4 tree is built from, likewise for V6
+    lists = {}
+    pushes = n.calls(r'Vec::push$')
+    ctx.check('new|push-sites', len(pushes) == 2, 'push sites in IpFilter::new: %d' % len(pushes), sample=len(pushes))
+    for p in pushes:
         val = S(n.call_args(p)[1])
-        if lst == 'ipv4list':
-            ctx.guard(n, p, 'v4-subnet', fact_is(r'\.addr$', ['V4']), key='new|ipv4list|family')
-            ctx.check('new|ipv4list|placement', re.match(r'^\(\(\(num::from_be_bytes\(Ipv4Addr::octets\(.*\)\) as u128\) << 96\), .*\.mask\)$', val) is not None, 'ipv4 entry %s' % val[:120], p.where(), sample=val[:160])
-        else:
-            ctx.guard(n, p, 'v6-subnet', fact_is(r'\.addr$', ['V6']), key='new|ipv6list|family')
-            ctx.check('new|ipv6list|value', re.match(r'^\(num::from_be_bytes\(Ipv6Addr::octets\(.*\)\), .*\.mask\)$', val) is not None, 'ipv6 entry %s' % val[:120], p.where(), sample=val[:160])
+        is4 = re.match(r'^\(\(\(num::from_be_bytes\(Ipv4Addr::octets\(.*\)\) as u128\) << 96\), .*\.mask\)$', val) is not None
+        is6 = re.match(r'^\(num::from_be_bytes\(Ipv6Addr::octets\(.*\)\), .*\.mask\)$', val) is not None
+        fam = 'V4' if is4 else 'V6' if is6 else None
+        ctx.check('new|ipv%slist|%s' % ('4' if is4 else '6', 'placement' if is4 else 'value'), fam is not None, 'prefix list entry %s' % val[:120], p.where(), sample=val[:160])
+        if fam:
+            ctx.guard(n, p, fam.lower() + '-subnet', fact_is(r'\.addr$', [fam]), key='new|ipv%slist|family' % fam[1])
+            lists[fam] = root_local(n, p.data['args'][0])
     lit = one(n.aggregates(r'ipfilter::IpFilter$'), 'IpFilter literal')
-    f = {k: N(n.operand_term(o)) for k, o in zip(lit.data['rv']['fields'], lit.data['rv']['ops'])}
-    ctx.check('new|trees', 'ipv4list' in f['ipv4_filter'] and 'ipv6list' in f['ipv6_filter'], 'trees built from %s' % f, lit.where(), sample=f)
+    built = {}
+    for k, o in zip(lit.data['rv']['fields'], lit.data['rv']['ops']):
+        # the field operand is the result of BitTree::create(<list>.as_mut_slice()): follow it to the list's local
+        tmp = o['place']['l'] if o.get('k') in ('copy', 'move') else None
+        ds = [d for d in (n.defs().get(tmp) or []) if d[2] == 'call'] if tmp is not None else []
+        if len(ds) == 1 and re.search(r'BitTree::create$', short_name((n.blocks[ds[0][0]]['term']['func'].get('fn') or {}).get('def', ''))):
+            built[k] = root_local(n, n.blocks[ds[0][0]]['term']['args'][0])
+    ok = lists.get('V4') is not None and lists.get('V6') is not None and lists['V4'] != lists['V6'] and built == {'ipv4_filter': lists['V4'], 'ipv6_filter': lists['V6']}
+    ctx.check('new|trees', ok, 'prefix lists (local #) %s, trees built from %s' % (lists, built), lit.where(), sample={'lists': lists, 'trees': built})
 
 
 def r3(ctx):
